@@ -1759,3 +1759,56 @@ func (m *mach) reflectModel(method string, args []mv) (mv, bool) {
 	m.abort("reflect.Value.%s on %s (kind %s) is outside the machine's model of package reflect", method, mRender(v.rv), reflect.Kind(kind))
 	return nil, false
 }
+
+// slicesModel: slices.Insert(s, i, v...) as the library defines it - in place when the capacity suffices (the
+// tail moves up, aliases see it), into grown storage otherwise; an index out of range panics.
+func (m *mach) slicesModel(fn *ssa.Function, name string, args []mv) (mv, bool) {
+	if name != "Insert" || len(args) != 3 {
+		return nil, false
+	}
+	var base []mv
+	switch x := args[0].(type) {
+	case mSlice:
+		base = x.arr
+	case mNilT:
+	default:
+		return nil, false
+	}
+	i, ok := args[1].(int64)
+	if !ok {
+		return nil, false
+	}
+	var add []mv
+	switch y := args[2].(type) {
+	case mSlice:
+		for _, e := range y.arr {
+			add = append(add, mcopy(e))
+		}
+	case mNilT:
+	default:
+		return nil, false
+	}
+	n := int64(len(base))
+	if i < 0 || i > n {
+		m.throw(m.sym("runtime error: slice bounds out of range", nil), "slices.Insert: index %d out of range [0:%d]", i, n)
+	}
+	if len(add) == 0 {
+		return args[0], true
+	}
+	total := len(base) + len(add)
+	if total <= cap(base) {
+		out := base[:total]
+		copy(out[int(i)+len(add):], base[i:])
+		copy(out[i:], add)
+		return mSlice{out}, true
+	}
+	var esize int64 = 8
+	if st, ok := fn.Signature.Results().At(0).Type().Underlying().(*types.Slice); ok {
+		esize = mSizes.Sizeof(st.Elem())
+	}
+	out := make([]mv, 0, growCap(int64(cap(base)), int64(total), esize))
+	out = append(out, base[:i]...)
+	out = append(out, add...)
+	out = append(out, base[i:]...)
+	return mSlice{out}, true
+}
